@@ -92,16 +92,26 @@ pub fn check(t: &Trace<'_>, out: &mut CaseOut) -> bool {
     // --- handles issued before a fresh session report invalidated (probe right after connect)
     for ci in t.conns.iter().filter(|c| matches!(c.connack, Some((false, 0, _))) && c.connack_consumed) {
         let ev0 = ci.ev_connack_consumed.unwrap();
-        let Some(pi) = w.events[ev0..].iter().find_map(|e| match e { Ev::Probe { idx } => Some(*idx), _ => None }) else { continue };
-        let p = &t.log.probes[pi];
-        for (h, st) in p.status.iter().enumerate() {
-            let issued_before = t.log.ops[t.log.handles[h].op].ev_ret < ev0;
-            if issued_before {
-                out.count("handles_checked_after_fresh_session", 1);
-                if *st != 4 {
-                    out.violations.push(viol("C05", "C05/handle-not-invalidated", format!("handle {} issued before the fresh session on conn {} reports status bits {:#05b}", h, ci.idx, st)));
+        // ... at every probe from then on (new operations of the fresh session reuse the identifiers)
+        let mut first = true;
+        'probes: for pi in w.events[ev0..].iter().filter_map(|e| match e { Ev::Probe { idx } => Some(*idx), _ => None }) {
+            let p = &t.log.probes[pi];
+            for (h, st) in p.status.iter().enumerate() {
+                let issued_before = t.log.ops[t.log.handles[h].op].ev_ret < ev0;
+                if issued_before {
+                    out.count("handles_checked_after_fresh_session", 1);
+                    if *st != 4 {
+                        let reused = t.log.handles[h].pid.is_some_and(|pid| p.snap.as_ref().is_some_and(|s| s.tx.retained.iter().any(|e| e.packet_id == pid) || s.tx.release.iter().any(|e| e.packet_id == pid)));
+                        let sig = if first { "C05/handle-not-invalidated" } else if reused { "C05/handle-not-invalidated/identifier-reused-by-new-operation" } else { "C05/handle-not-invalidated/later" };
+                        out.violations.push(viol("C05", sig, format!("handle {} issued before the fresh session on conn {} reports status bits {:#05b} at probe {}", h, ci.idx, st, pi)));
+                        break 'probes;
+                    }
+                    if !first && t.log.handles[h].pid.is_some_and(|pid| p.snap.as_ref().is_some_and(|s| s.tx.retained.iter().any(|e| e.packet_id == pid))) {
+                        out.count("old_handles_checked_while_identifier_reused", 1);
+                    }
                 }
             }
+            first = false;
         }
     }
     // --- resumed session: everything unacknowledged is retransmitted exactly once, before anything new
